@@ -226,6 +226,63 @@ def multi_check(obs):
     return vs
 
 
+def retry_sequence():
+    """A request that could not be routed (no ready peer) is submitted again later, after another request has gone out: every request
+    on the wire has its own end-to-end and hop-by-hop identifier.  One deterministic history."""
+    from .. import scenario
+    _set_points()
+    sk.set_line_points({})
+    cfg = {"node": {"ips": ["10.0.0.1"], "tcp_port": 3868, "idle_timeout": 600, "dwa_timeout": 50, "wakeup": 1},
+           "peers": [{"name": "peer1.example.org"}], "apps": [{"id": env.APP_ACCT, "acct": True, "peers": [0]}]}
+    sc = scenario.Scenario(cfg, max_socks=1, app_timeout=1)
+    vs = []
+    try:
+        nw = sc.start()
+        from diameter.message.commands import AccountingRequest
+        outcomes = []
+
+        def mk(i):
+            m = AccountingRequest()
+            m.session_id = f"retry;{i}"
+            m.origin_host = b"node.example.org"
+            m.origin_realm = b"example.org"
+            m.destination_realm = b"example.org"
+            m.accounting_record_type = 1
+            m.accounting_record_number = i
+            m.acct_application_id = env.APP_ACCT
+            return m
+        m1, m2, m3 = mk(1), mk(2), mk(3)
+
+        def send(m):
+            def caller():
+                try:
+                    nw.apps[0].send_request(m, timeout=1)
+                    outcomes.append("answer")
+                except Exception as e:
+                    outcomes.append(type(e).__name__)
+            sk.spawn(caller, "caller")
+            nw.run()
+            sc.apply(("tick", 2))
+        send(m1)                        # no peer is connected: not routable
+        sc.apply(("accept",))
+        sc.apply(("m", 0, "cer_p0"))
+        send(m2)                        # goes out
+        send(m1)                        # the application tries the first message again
+        send(m3)
+        reqs = [(f.h.hbh, f.h.e2e) for f in sc.socks[0].out if f.h.is_request and f.h.code == 271]
+        e2e = [e for _, e in reqs]
+        hbh = [h for h, _ in reqs]
+        if outcomes[:1] != ["NotRoutable"] or len(reqs) != 3:
+            vs.append(("node:retry-after-NotRoutable:unexpected-course", f"outcomes {outcomes}, requests on the wire {reqs}"))
+        if len(set(e2e)) != len(e2e) or 0 in e2e:
+            vs.append(("node:retry-after-NotRoutable:duplicate-or-zero-end-to-end", f"requests on the wire (hop-by-hop, end-to-end): {reqs}"))
+        if len(set(hbh)) != len(hbh) or 0 in hbh:
+            vs.append(("node:retry-after-NotRoutable:duplicate-or-zero-hop-by-hop-on-one-connection", f"{reqs}"))
+        return vs
+    finally:
+        sc.close()
+
+
 # ------------------------------------------------------------------ sequential sweep
 def sweep(rep: Report):
     hh = _hh()
@@ -364,6 +421,8 @@ def run(tier):
                               {"kind": kind, "cfg": list(cfg) if isinstance(cfg, (tuple, list)) else cfg, "choices": choices}))
         rep.sample({"cfg": cfg, "bound": b, "bound_completed_without_cap": r.get("bound_completed", b), "capped": r.get("capped", False), "executions": r["executions"], "distinct_outcomes": len(r["outcomes"]),
                     "branching_points": r["max_points"]}, 40)
+    for key, detail in retry_sequence():
+        rep.add(Violation(key, detail, {"kind": "retry"}))
     n = sweep(rep)
     rep.cov.update({"states": execs, "transitions": execs, "traces_validated_against_impl": execs,
                     "schedules": execs, "distinct_outcomes_total": outcomes, "max_branching_points": maxpts,
@@ -386,6 +445,8 @@ def replay(case):
         cfg = tuple(case["cfg"])
         obs, ch = _replay_choices(functools.partial(node_execute, cfg), case["choices"])
         return [Violation(k, d) for k, d in node_check(obs)]
+    if kind == "retry":
+        return [Violation(k, d) for k, d in retry_sequence()]
     if kind == "multi":
         obs, ch = _replay_choices(functools.partial(multi_execute, case["cfg"]), case["choices"])
         return [Violation(k, d) for k, d in multi_check(obs)]
